@@ -10,6 +10,9 @@ Tie:      `pre`   function level: md5(model pre-image) == tokenize(...) on gener
           `opq`   oracle only: pandas objects, dataclasses, partials, callables, memmaps (not modelled)
           `rec`   recursive containers (`__seen`): exact pre-image against Model/NormalFormRec.lean, determinism under
                   rebuild / deepcopy / pickle, different structures -> different tokens
+          `ppx`   exact pre-image against Model/NormalFormPandasX.lean: MultiIndex, Categorical, nullable arrays, tz-aware /
+                  period / timedelta / interval values, pandas scalars; `pxpair` near misses of that universe (other category
+                  order, other level order, NA vs the fill value, hidden data under the mask, other tz / unit / closedness)
           `cat`   oracle only: a catalogue of further classes (numpy scalars / dtypes / ufuncs, bound methods, builtins,
                   Compose / curry / partial, literal, OrderedDict, MappingProxyType, frozenset, types, range, UUID,
                   pandas scalars / offsets / extension arrays / dtypes, recursive containers, masked / record / object /
@@ -27,11 +30,12 @@ import sys
 
 from sexp import Sym
 from props import _token_util as U
+from props import _token_pandasx as PX
 
 PROP = "C12"
 READY = True
 DRIVER = "dm_token"
-LEAN_MODULES = ["DaskModel.Props.C12", "DaskModel.Props.C12Pandas", "DaskModel.Props.C12Registry", "DaskModel.Props.C12Pickle"]
+LEAN_MODULES = ["DaskModel.Props.C12", "DaskModel.Props.C12Pandas", "DaskModel.Props.C12xPandas", "DaskModel.Props.C12Registry", "DaskModel.Props.C12Pickle"]
 TABLES = ["TokenDispatch", "TokenRegistry"]
 CASE_TIMEOUT_S = 240   # the `fresh` case starts new interpreters (slow imports on a loaded machine); nothing else comes close
 LEVEL_TEXT = ("Lean proof over the modelled normaliser (ints, bools, floats, str, bytes, None, nested list/tuple/dict/"
@@ -45,6 +49,14 @@ LEVEL_TEXT = ("Lean proof over the modelled normaliser (ints, bools, floats, str
               "(preimage_injective). NumPy-backed pandas objects (Index, RangeIndex, Series, DataFrame column by column, "
               "Categorical): pnorm a = pnorm b <-> the objects agree in class, names, dtypes and, up to memory layout, values "
               "(ptoken_iff; collision freedom also across the classes, determinism independent of views / block layout). "
+              "Extended pandas universe (MultiIndex, Categorical as array / index / categories of anything, nullable Integer / "
+              "Floating / Boolean arrays, tz-aware / period / timedelta / interval values, Timestamp / Timedelta / NaT / NA): "
+              "xnormVals_injective / xnormIdx_injective (mutual induction over values and indexes: equal normal forms -> same "
+              "dtype name incl. tz / unit / freq, same NA positions and non-missing values, same categories in the same order, "
+              "ordered flag, codes, levels in their order with their names, interval sides and closedness) and the converses "
+              "xnormVals_deterministic / xnormIdx_deterministic / xnorm_deterministic (layout and what is stored underneath a "
+              "missing value do not matter); objects: xnorm_injective_partial (two objects of ONE class; across classes only "
+              "scalar_separated, series_ne_multi, classed_index_ne_list are proved). "
               "The dispatch table extracted from dask/tokenize.py is accounted for class by class (registry_complete, "
               "modelled_registered, one_normaliser_per_class) and compared with the table of the running interpreter. The "
               "retry loop of the pickle fallback is transliterated (pickle_stable, pickle_unstable_flagged, "
@@ -53,8 +65,10 @@ LEVEL_TEXT = ("Lean proof over the modelled normaliser (ints, bools, floats, str
 LEVEL_NOTE = ("md5 and hash_buffer_hex are assumed injective on the values compared (trusted); CPython repr of float, dtype "
               "and type objects are atoms (the printed-form injectivity theorem covers ints, bools, None, str, bytes and "
               "containers of them); rnorm_eq_norm proves that the __seen bookkeeping is invisible on acyclic values, genuine "
-              "cycles are validated by exact pre-image only; extension-array backed pandas objects (nullable, Arrow, tz-aware, "
-              "period, interval, sparse), MultiIndex, the pickle bytes themselves (callables, arbitrary objects), "
+              "cycles are validated by exact pre-image only; Timestamp / Timedelta reach the token through repr() (carried as "
+              "atoms: two known findings, resolution unit of the scalars and fixed-offset zones that share a name); Arrow-backed and "
+              "sparse arrays, string arrays that hold NA, Interval / Period scalars (pickle path), the pickle bytes themselves "
+              "(callables, arbitrary objects), "
               "dataclasses and partials are validated by the oracle-only sections (near-miss pairs, copy / deepcopy / "
               "pickle round trips, fresh interpreters with another hash seed).")
 TECHNIQUE = "Lean 4 proof (structural induction over a nested value type) + differential correspondence on the md5 pre-image"
@@ -64,7 +78,8 @@ ASSUMPTIONS = ["hashlib.md5 and dask.hashing.hash_buffer_hex are injective on th
                "utf-8 encoding is injective",
                "pickle.dumps / cloudpickle.dumps of equal objects give equal bytes where the pickle fallback is used (validated)"]
 TRUSTED = ["harness/props/_token_util.py: encoding of Python values as Lean `Val`, interning of array elements, digest placeholders",
-           "harness/props/c12.py enc_pandas: reading name / dtype / values / index off pandas objects through their public attributes (and ._values)"]
+           "harness/props/c12.py enc_pandas: reading name / dtype / values / index off pandas objects through their public attributes (and ._values)",
+           "harness/props/_token_pandasx.py enc_obj: the same for the extended universe (plus ._data / ._mask of nullable arrays); obs: the observation oracle"]
 
 
 # ----------------------------------------------------------------------------------------------
@@ -650,6 +665,138 @@ def case_ppre(ctx, inp):
         ctx.branch("ppre-extension-array-values")
 
 
+# ----------------------------------------------------------------------------------------------
+# extended pandas universe (Model/NormalFormPandasX.lean, harness/props/_token_pandasx.py)
+# ----------------------------------------------------------------------------------------------
+
+def _px_classes(ctx, o, pref="ppx-"):
+    """measure the generator: which normalisers a case reaches"""
+    import numpy as np
+    import pandas as pd
+
+    def vals(a):
+        n = type(a).__name__
+        if n in ("IntegerArray", "FloatingArray", "BooleanArray"):
+            ctx.branch(pref + "masked")
+            if a._mask.any():
+                ctx.branch(pref + "masked-with-NA")
+        elif n == "Categorical":
+            ctx.branch(pref + "categorical")
+            idx(a.categories)
+        elif n == "IntervalArray":
+            ctx.branch(pref + "interval")
+        elif n == "DatetimeArray":
+            ctx.branch(pref + ("datetime-tz" if a.tz is not None else "datetime-naive"))
+        elif n in ("PeriodArray", "TimedeltaArray"):
+            ctx.branch(pref + n)
+
+    def idx(i):
+        if type(i) is pd.MultiIndex:
+            ctx.branch(pref + "MultiIndex")
+            for l in i.levels:
+                idx(l)
+        elif type(i) is not pd.RangeIndex:
+            vals(i.array)
+    if isinstance(o, pd.Index):
+        idx(o)
+    elif type(o) is pd.Series:
+        vals(o._values), idx(o.index)
+    elif type(o) is pd.DataFrame:
+        [vals(o.iloc[:, j]._values) for j in range(o.shape[1])], idx(o.columns), idx(o.index)
+    elif isinstance(o, (pd.api.extensions.ExtensionArray, np.ndarray)):
+        vals(o)
+    else:
+        ctx.branch(pref + "scalar-" + type(o).__name__)
+
+
+def case_ppx(ctx, inp):
+    """function level: md5(model pre-image) == tokenize(obj) for the extended pandas universe; the class of a scalar as
+    told by its repr == its real class; determinism under copy / deepcopy / pickle"""
+    o = PX.build(inp["spec"])
+    real = _tokenize(o)
+    table = U.Table()
+    try:
+        e = PX.enc_obj(o, table)
+    except U.Unsupported:
+        ctx.note("ppx-unsupported")
+        e = None
+    if e is not None:
+        pre = ctx.lean(Sym("xtokpre"), e)
+        if not isinstance(pre, str) or isinstance(pre, Sym):
+            ctx.disagree("model answered", repr(pre), None)
+            return
+        model = hashlib.md5(U.resolve(pre, table).encode(), usedforsecurity=False).hexdigest()
+        if model != real:
+            from dask.tokenize import _normalize_seq_func
+            ctx.disagree("tokenize(pandas object, extended universe): pre-image", U.resolve(pre, table), str(_normalize_seq_func((o,))))
+        if e[0] == Sym("pscalar"):
+            ctx.eq("class of a pandas scalar told by its repr", ctx.lean(Sym("scls"), repr(o)), type(o).__name__)
+        _px_classes(ctx, o)
+        ctx.branch("ppx-" + type(o).__name__)
+    for name, mk in (("again", lambda v: v), ("rebuilt", lambda v: PX.build(inp["spec"])), ("deepcopy", copy.deepcopy),
+                     ("pickle", lambda v: pickle.loads(pickle.dumps(v)))):
+        w = mk(o)
+        if PX.obs(w) != PX.obs(o):
+            ctx.note("ppx-roundtrip-not-equal-" + name)
+            continue
+        if _tokenize(w) != real:
+            ctx.fail(f"token of a pandas object changes after {name}", sig=f"nondet-{name}:px:{inp['spec'][0]}", observed=[real, _tokenize(w)])
+
+
+_PX_WRAPPERS = ("series", "series-index", "frame-index", "frame-column", "index", "multi-level")
+
+
+def _px_sig(a, b, label):
+    """class of the pair, computed from the two objects where a known class of collision is concerned (so that another
+    collision is reported under another signature), otherwise from the generator's label without its wrappers"""
+    import pandas as pd
+    oa, ob = PX.obs(a), PX.obs(b)
+    for cls in (pd.Timestamp, pd.Timedelta):
+        if isinstance(a, cls) and isinstance(b, cls) and a == b and repr(a) == repr(b) and oa[2] != ob[2] \
+                and [x for i, x in enumerate(oa) if i not in (1, 2)] == [x for i, x in enumerate(ob) if i not in (1, 2)]:
+            return "scalar-unit:" + cls.__name__
+
+    def blank(o):
+        if isinstance(o, list):
+            if o and o[0] == "DatetimeArray" and len(o) == 4:
+                return o[:3]
+            return [blank(x) for x in o]
+        return o
+    if oa != ob and blank(oa) == blank(ob):
+        return "tz-same-name-other-offset"
+    parts = label.replace("same:", "").split(":")
+    while len(parts) > 1 and parts[0] in _PX_WRAPPERS:
+        parts = parts[1:]
+    return ":".join(parts)
+
+
+def case_pxpair(ctx, inp):
+    """property oracle on near misses of the extended pandas universe: same token <=> observably equal (names, dtypes,
+    NA positions, categories / levels in their order, codes, tz, unit, closedness — read through the public interface)"""
+    a, b = PX.build(inp["a"]), PX.build(inp["b"])
+    ta, tb = _tokenize(a), _tokenize(b)
+    same = PX.obs(a) == PX.obs(b)
+    label = inp.get("label", "?")
+    short = label.replace("same:", "").split(":")
+    ctx.branch(("equal:" if same else "differ:") + "px-" + short[-1 if short[0].startswith(("series", "frame", "index", "multi-level")) else 0])
+    if label.startswith("same:") and not same:
+        ctx.note("pxpair-same-label-but-observably-different")
+    sig = "px:" + _px_sig(a, b, label)
+    if same and ta != tb:
+        ctx.fail("observably equal pandas objects get different tokens", sig="nondet:" + sig, observed=[ta, tb], expected="equal tokens")
+    if not same and ta == tb:
+        ctx.fail("observably different pandas objects get the same token (collision)", sig="collision:" + sig, observed=ta,
+                 expected="different tokens")
+    # the model agrees on the pattern (it is compared bit for bit in `ppx`; here: through its own pre-images)
+    try:
+        t1, t2 = U.Table(), U.Table()
+        pa = U.resolve(ctx.lean(Sym("xtokpre"), PX.enc_obj(a, t1)), t1)
+        pb = U.resolve(ctx.lean(Sym("xtokpre"), PX.enc_obj(b, t2)), t2)
+        ctx.eq("token equality pattern (model vs tokenize), extended pandas universe", pa == pb, ta == tb)
+    except U.Unsupported:
+        ctx.note("pxpair-unsupported")
+
+
 class _Scripted:
     """an object whose pickle is scripted: the i-th call of __reduce__ gives the i-th entry (None: raise)"""
 
@@ -747,7 +894,7 @@ def case_registry(ctx, inp):
     ctx.branch("registry")
 
 
-CASES = {"pickle": case_pickle, "registry": case_registry, "ppre": case_ppre, "pre": case_pre, "pair": case_pair, "trip": case_trip, "fresh": case_fresh, "opq": case_opq, "cat": case_cat, "rec": case_rec}
+CASES = {"ppx": case_ppx, "pxpair": case_pxpair, "pickle": case_pickle, "registry": case_registry, "ppre": case_ppre, "pre": case_pre, "pair": case_pair, "trip": case_trip, "fresh": case_fresh, "opq": case_opq, "cat": case_cat, "rec": case_rec}
 
 
 # ----------------------------------------------------------------------------------------------
@@ -924,6 +1071,23 @@ def generate(ctx):
         for sp in (a_, b_):
             if sp[0] in ("series", "index", "range", "cat", "frame"):
                 yield "ppre", {"spec": sp}
+    # extended pandas universe: exact pre-image + near-miss pairs
+    for a_, b_, lab in PX.EXPLICIT:
+        yield "pxpair", {"a": a_, "b": b_, "label": lab}
+        yield "ppx", {"spec": a_}
+        yield "ppx", {"spec": b_}
+    for _ in range(ctx.n(220, 2500)):
+        yield "ppx", {"spec": PX.gen_obj(rng)}
+    for _ in range(ctx.n(260, 3000)):
+        a_ = PX.gen_obj(rng)
+        r_ = rng.random()
+        if r_ < 0.8:
+            b_, lab = PX.mutate(rng, a_)
+        elif r_ < 0.88:
+            b_, lab = a_, "same:identity"
+        else:
+            b_, lab = PX.gen_obj(rng), "independent"
+        yield "pxpair", {"a": a_, "b": b_, "label": lab}
     # catalogue: every entry against itself (built twice) and against the entries of its family; random cross pairs
     srcs = [s for s, _ in CATALOG]
     fams = {}
